@@ -232,11 +232,15 @@ SCENARIOS = {
     'add2-add': [[('add_node', 'g', 'x'), ('add_node', 'g', 'z')], [('add_node', 'g', 'y')]],
     'import-extract': [[('import', 'K1', 'good')], [('extract', 'g')]],
     'blank-blank': [[('blank', 'g', 'x')], [('blank', 'g', 'y')]],
+    'direct-direct': [[('import_direct', 'K1', 'good')], [('import_direct', 'K2', 'good2')]],
+    'direct-blank': [[('import_direct', 'K1', 'good')], [('blank', 'g', 'x')]],
+    'direct-import': [[('import_direct', 'K1', 'good')], [('import', 'K2', 'good2')]],
+    'direct-direct-same-id': [[('import_direct', 'K1', 'good')], [('import_direct', 'K1', 'good2')]],
     'add-add-add': [[('add_node', 'g', 'x')], [('add_node', 'g', 'y')], [('add_node', 'h', 'z')]],
     'import-import-add': [[('import', 'K1', 'good')], [('import', 'K2', 'good')], [('add_node', 'g', 'x')]],
 }
 QUICK_SCEN = ['add-add-same-graph', 'add-add-other-graph', 'import-import-fresh', 'import-add', 'import-import-same-id',
-              'add2-add', 'import-extract', 'blank-blank']
+              'add2-add', 'import-extract', 'blank-blank', 'direct-direct', 'direct-blank', 'direct-import']
 
 
 class Harness:
@@ -283,6 +287,11 @@ class Harness:
             self.store().add_blank_node_to_graph(op[1], NodeID=op[2], Class='NetworkNode')
         elif k == 'import':
             self.store().add_graph(op[1], {'good': GOOD, 'good2': GOOD2}[op[2]].copy())
+        elif k == 'import_direct':
+            g = {'good': GOOD, 'good2': GOOD2}[op[2]].copy()
+            for n in g.nodes:
+                g.nodes[n]['GraphID'] = op[1]
+            self.store().add_graph_direct(op[1], g)
         elif k == 'extract':
             self.store().extract_graph(op[1])
         else:
